@@ -17,7 +17,6 @@ package main
 
 import (
 	"fmt"
-	"sort"
 	"strings"
 	"time"
 
@@ -229,23 +228,19 @@ func sweepCases(a vh.Args) []*tcase {
 			n = perHeavy
 		}
 		if n < len(all) {
+			// quick tier: every top-level component null / dropped (the c04 panics were of that kind),
+			// plus n more damages chosen by the seed
 			r := vh.NewRng(a.Seed, "C12", "sweep/"+p.Name, 0)
-			// deterministic choice, field-null / field-drop first (the c04 panics were of that kind)
-			sort.SliceStable(all, func(i, j int) bool {
-				pi := all[i].m.Kind == "field-null" || all[i].m.Kind == "field-drop"
-				pj := all[j].m.Kind == "field-null" || all[j].m.Kind == "field-drop"
-				return pi && !pj
-			})
-			var pick []cand
-			for k := 0; k < n; k++ {
-				lim := len(all)
-				if k < n-1 {
-					// mostly from the field-null/field-drop part
-					for lim > 1 && !(all[lim-1].m.Kind == "field-null" || all[lim-1].m.Kind == "field-drop") {
-						lim--
-					}
+			var pick, rest []cand
+			for _, c := range all {
+				if (c.m.Kind == "field-null" || c.m.Kind == "field-drop") && strings.Count(c.m.Path, "/") == 1 {
+					pick = append(pick, c)
+				} else {
+					rest = append(rest, c)
 				}
-				pick = append(pick, all[r.Intn(lim)])
+			}
+			for k := 0; k < n && len(rest) > 0; k++ {
+				pick = append(pick, rest[r.Intn(len(rest))])
 			}
 			all = pick
 		}
